@@ -117,3 +117,25 @@ fn h_ni_par_lanes() {
         j += 1;
     }
 }
+
+// mix_columns == MixColumns, one symbolic column at a time (the other three columns zero): AESIMC acts on each 4-byte
+// column independently (its model is FIPS-197 InvMixColumns, per column by definition), so the full-block statement is
+// the conjunction of the four single-column ones.
+// @ob name=h_ni_mixcol_percolumn props=C17,C20 cfg=hazmat solver=z3 fn=aes::ni::hazmat::mix_columns timeout=900
+#[kani::proof]
+#[kani::stub(core::arch::x86_64::_mm_aesimc_si128, x86_models::aesimc)]
+#[kani::unwind(20)]
+#[kani::solver(z3)]
+fn h_ni_mixcol_percolumn() {
+    let col: [u8; 4] = kani::any();
+    let c: usize = kani::any();
+    kani::assume(c < 4);
+    let mut b = [0u8; 16];
+    b[4 * c] = col[0];
+    b[4 * c + 1] = col[1];
+    b[4 * c + 2] = col[2];
+    b[4 * c + 3] = col[3];
+    let mut x = Array(b);
+    unsafe { mix_columns(&mut x); }
+    assert!(eq(&x.0, &fips::mix_columns(&b)));
+}
